@@ -151,6 +151,18 @@ struct PolUserMapGetEvent
 	static int getEvent(const Ev & e) { return e.key; }
 	using Threading = eventpp::SingleThreading;
 };
+// user getEvent policies whose parameters are *by value*: the dispatcher must hand them its arguments as lvalues (copies
+// for the policy), never forwarded, or the listeners afterwards receive moved-from values
+template <typename K> struct PolExcludeGetEventByValue
+{
+	using ArgumentPassingMode = eventpp::ArgumentPassingExcludeEvent;
+	static K getEvent(const K & k, Tracked t, int) { (void)t; return k; }
+};
+template <typename K> struct PolIncludeGetEventByValue
+{
+	using ArgumentPassingMode = eventpp::ArgumentPassingIncludeEvent;
+	static K getEvent(K k, Tracked t) { (void)t; return k; }
+};
 struct PolChecked { using Threading = CheckedThreading; };
 struct PolSpin { using Threading = eventpp::GeneralThreading<eventpp::SpinLock>; };
 
@@ -269,7 +281,7 @@ struct CfgD : DispBase<CfgD<Policies>, int, void (const Ev &), Policies>
 	}
 };
 
-const int kConfigs = 10;
+const int kConfigs = 12;
 IDisp * makeImpl(int cfg)
 {
 	switch(cfg) {
@@ -282,6 +294,8 @@ IDisp * makeImpl(int cfg)
 	case 6: return new CfgD<PolUserMapGetEvent>();
 	case 7: return new CfgC<std::string, PolAuto>();
 	case 8: return new CfgA<KeyHash, PolInclude>();
+	case 9: return new CfgC<std::string, PolExcludeGetEventByValue<std::string> >();
+	case 10: return new CfgA<std::string, PolIncludeGetEventByValue<std::string> >();
 	default: return new CfgB<int, PolSpin>();
 	}
 }
